@@ -91,7 +91,9 @@ DuplicateKey(D) ==
 DuplicateEntry(D) == \E k \in {"states", "final", "initial"} : \E i \in Idx(D, k) : ~SeqIsSet(T(D, i))
 EmptyStatesLine(D) == \E i \in Idx(D, "states") : T(D, i) = <<>>
 ShortTransition(D) == \E i \in Idx(D, "tr") : Len(T(D, i)) <= 2
-BadStateLabel(D) == (UsedStates(D) \cup DeclaredStates(D)) \cap D.badstate # {}
+(* every state of the automaton has a legal label: the used and declared ones and (TM, states not declared) the   *)
+(* halting states, which the builder adds to the state set before it checks the labels                          *)
+BadStateLabel(D) == (UsedStates(D) \cup DeclaredStates(D) \cup States(D)) \cap D.badstate # {}
 BadTransitionLabel(D) == \E x \in TrPos(D) : Lab(D, x)[1] = "bad"
 UndeclaredState(D) == ~(UsedStates(D) \subseteq States(D))
 InitialCount(D) == Cardinality(Initials(D)) # 1
